@@ -29,6 +29,11 @@ int main(void) {
   int i2 = 5; R((i2, i2 + 1)); R(sizeof(i2, (char)i2)); R((i2++, i2++, i2)); R((c ? i2 : 0)); int arr[3] = { 10, 20, 30 }; R((c ? arr : arr + 1)[1]); R(*(c ? &arr[2] : &arr[0])); R((&arr[1])[c]); R(c[arr]); R((arr + 1)[-1]); R(*(arr + 2) - *arr); R(&arr[3] - arr); R(sizeof arr / sizeof arr[0]); R(sizeof &arr[0]); R(sizeof *&arr[0]);
   unsigned char uc = 200; signed char sc = -100; R(uc + sc); R(uc * 2); R((unsigned char)(uc * 2)); R(sc * 2); R((signed char)(sc * 2)); R(uc >> 1); R(sc >> 1); R(uc << 1); R(sc << 1 < 0); R(uc & sc); R(uc | sc); R(uc ^ sc); R(~uc); R(-uc); R(!uc); R(uc / sc); R(uc % sc); R(sc / uc); R(sc % 7); R(uc > sc); R(uc == 200); R(sc == -100); R((char)uc == (char)200);
   long big = 0x123456789abcdefL; int sm = big; short sh = big; char ch = big; unsigned us3 = big; R(sm); R(sh); R(ch); R(us3); R((int)(big >> 32)); R((short)(big >> 4)); R((unsigned char)(big >> 8)); R(big >> 60); R(big << 4 >> 4 == big); R((unsigned long)big << 8 >> 8 == big); R(big * 16 / 16 == big); R(big % 1000003); R(big / 1000003); R(-big % 1000003); R(big & -big); R(big ^ big >> 1);
+  { enum SE { SE_N = -1, SE_P = 1 }; enum UE { UE_A, UE_B };
+    enum SE se = SE_N; enum UE ue = (enum UE)-1; volatile enum SE vse = SE_N; volatile enum UE vue = (enum UE)-1;
+    R((double)se * 4); R((double)ue / 1024); R((float)vse * 4); R((long double)vue / 1024); R((long)se); R((long)ue); R((unsigned long)vse >> 60); R(se < 0); R(ue < 0); R(vse < SE_P); R(vue > UE_B); R(sizeof(se + 0)); R((se + 0) < 0); R((ue + 0) < 0);
+    long l1 = se, l2 = ue; double d1 = se; float f1 = ue; long double ld1 = vse; unsigned long ul1 = vue; short sh1 = se; R(l1); R(l2); R(d1 * 8); R(f1 / 4096); R(ld1 * 8); R(ul1); R(sh1); R(se * 2L); R(ue / 2L); R(-ue > 0); R(~se); R(!ue);
+    ue = 2.9; se = -2.9; R(ue); R(se); ue = (enum UE)3000000000.0; R(ue > 0); R((long)ue); }
   for (int i = 0; i < nr; i++) printf("%d=%ld\n", i, results[i]);
   return 0;
 }
